@@ -538,7 +538,17 @@ def explain(w: Dict[str, Any]) -> Optional[List[str]]:
     return used if not remaining else None
 
 
+def kf_inherited_member_overridden(w: Dict[str, Any]) -> bool:
+    """Known finding: a class-level assignment `name = value` in a subclass whose BASE defines `name` as a function or class is
+    ignored (astbuilder._maybeAttribute looks the name up along the MRO; the repository's test_assignment_to_method_in_class pins it
+    for `base_method = wrap_method(base_method)`): the variable the subclass binds is not documented.  Matches only the side
+    check's witnesses of exactly that shape (a missing class variable whose name a base class defines as function / class)."""
+    return w.get("what_side") == "__doc__ assignment" and str(w.get("what", "")) == "overriding variables: missing" \
+        and bool(w.get("known_shape")) and w.get("expected") == "variable"
+
+
 def run(ctx: Ctx) -> int:
+    ctx.register_matcher("inherited-member-overridden-by-variable", kf_inherited_member_overridden)
     for fid, _fn in KNOWN:
         ctx.register_matcher(fid, lambda w, fid=fid: (explain(w) or [None])[0] == fid)
     maxn = 2 if ctx.quick else 3
